@@ -14,7 +14,8 @@ use crate::util::{Log, Opts};
 use std::panic::{AssertUnwindSafe, catch_unwind};
 use veryl_analyzer::value::{SvLogicVecVal, Value, ValueBigUint, ValueU64, biguint_from_le_bytes};
 
-pub const WIDTHS: &[usize] = &[0, 1, 2, 31, 32, 33, 63, 64, 65, 95, 96, 97, 127, 128, 129, 255, 256, 257, 300];
+pub const WIDTHS: &[usize] =
+    &[0, 1, 2, 31, 32, 33, 63, 64, 65, 95, 96, 97, 127, 128, 129, 159, 160, 161, 191, 192, 193, 223, 224, 225, 255, 256, 257, 300];
 
 pub fn hex_to_le(s: &str) -> Option<Vec<u8>> {
     if s.is_empty() || !s.bytes().all(|b| b.is_ascii_hexdigit()) {
